@@ -329,6 +329,26 @@ def one_run(run, ct, net, mode, sets, failing, post, objective, seed, M, real_po
             if (f_, w_, s_) != (ref["flops"], ref["write"], ref["size"]):
                 problems.append(f"trial {i}: recorded costs {(f_, w_, s_)} differ from the costs of the tree that trial built "
                                 f"{(ref['flops'], ref['write'], ref['size'])} (another trial's result?)")
+    # the table of trials the optimizer reports (get_trials): one row per recorded trial, the winner among them
+    try:
+        finite_rows = None
+        for srt in (None, "flops", "size", "write", "combo", "method"):
+            if srt in ("flops", "size", "write", "combo") and any(x == float("inf") for x in opt.costs_flops):
+                continue        # the sort keys take logarithms; failed trials are recorded as inf
+            rows = opt.get_trials(sort=srt)
+            if len(rows) != len(opt.scores):
+                problems.append(f"get_trials(sort={srt}) lists {len(rows)} trials, {len(opt.scores)} were recorded")
+                break
+            key = sorted((r_[1], r_[2], r_[3]) for r_ in rows)
+            if finite_rows is None:
+                finite_rows = key
+            elif key != finite_rows:
+                problems.append(f"get_trials(sort={srt}) is not a permutation of the recorded trials")
+                break
+        if finite_rows is not None and "tree" in b and (b.get("size"), b.get("flops"), b.get("write")) not in finite_rows:
+            problems.append("the winning trial's figures do not occur in get_trials()")
+    except Exception as e:
+        problems.append(f"get_trials raised {core.exc_text(e)}")
     for pmsg in problems:
         run.violation(f"{pmsg} | mode={mode} post={post} objective={objective} eq={net.eq()} failing={sorted(failing)} "
                       f"schedule={desc['schedule']}", desc, tags=tags | {"figures"})
